@@ -107,6 +107,9 @@ func c07Class(msg string) string {
 
 func c07Eval(e *Env, m *refplay.Model, c *playCase, report bool) bool {
 	doc := refplay.YAML(c.Insts)
+	if c.Path == "text-cli" {
+		doc = c.ChordText
+	}
 	res := runWrite(c.Path, doc, c.Cfg)
 	e.R.Eval(1)
 	fail := func(class, s string) bool {
@@ -556,6 +559,49 @@ func runC07(e *Env) {
 	e.R.AddPart(ev.Part{Name: "flags-x-documents", Enumerated: fmt.Sprintf("16 subsets of {--bpm,--meter,--key,--velocity} x 256 documents (each of the 4 settings present/absent on instance 0 and on instance 1): in-process all 4096, real binary every %d-th; plus 15 non-empty flag subsets x 4 documents whose first instance is a rest (real binary, all)", step), Executions: int64(len(fcases)), Exhaustive: true})
 
 	c07YAMLFeatures(e)
+	// settings written in chord text ({bpm=..,mtr=..,key=..,vel=..,txt=..,lic=..,mrk=..}) on a chord, on a
+	// rest, on the chord after the rest: through `text conv degree | write` they mean what the
+	// equivalent instances document means
+	type tset struct {
+		text string
+		mod  func(in *refplay.Inst)
+	}
+	tsets := []tset{
+		{"bpm=133", func(in *refplay.Inst) { in.BPM = up(133) }},
+		{"mtr=7/8", func(in *refplay.Inst) { in.Meter = &timing.Frac{Num: 7, Den: 8} }},
+		{"key=Eb", func(in *refplay.Inst) { in.Key = sp("Eb") }},
+		{"vel=ff", func(in *refplay.Inst) { in.Vel = sp("ff") }},
+		{"txt=t é", func(in *refplay.Inst) { in.Meta = map[string]string{"txt": "t é"} }},
+		{"lic=la", func(in *refplay.Inst) { in.Meta = map[string]string{"lic": "la"} }},
+		{"mrk=A1", func(in *refplay.Inst) { in.Meta = map[string]string{"mrk": "A1"} }},
+		{"bpm=61,mtr=3/4,key=F#m,vel=pp,txt=x,lic=y,mrk=z", func(in *refplay.Inst) {
+			in.BPM, in.Meter, in.Key, in.Vel = up(61), &timing.Frac{Num: 3, Den: 4}, sp("F#m"), sp("pp")
+			in.Meta = map[string]string{"txt": "x", "lic": "y", "mrk": "z"}
+		}},
+	}
+	var tcases []playCase
+	for _, ts := range tsets {
+		for pos := 0; pos < 4; pos++ {
+			words := []string{"1[1]", "R[1]", "5[1]", "R[1/2]"}
+			insts := []refplay.Inst{
+				{Chord: &refplay.Chord{Degree: iv("1")}, Values: one()},
+				{Values: one()},
+				{Chord: &refplay.Chord{Degree: iv("5")}, Values: one()},
+				{Values: []timing.Frac{{Num: 1, Den: 2}}},
+			}
+			words[pos] += "{" + ts.text + "}"
+			ts.mod(&insts[pos])
+			// metadata that is a setting is also kept as metadata by text conv; only txt/lic/mrk become events, which is what the model compares
+			tcases = append(tcases, playCase{Path: "text-cli", ChordText: strings.Join(words, " "), Insts: insts})
+		}
+	}
+	mc.ParFor(len(tcases), func(i int) {
+		c := tcases[i]
+		c07Eval(e, m, &c, true)
+		e.R.Trace(1)
+	})
+	e.R.NonTrivialN(int64(len(tcases)))
+	e.R.AddPart(ev.Part{Name: "settings-in-chord-text", Enumerated: "8 metadata groups (each setting alone, all together) on the first chord, on a rest, on the chord after the rest and on a trailing rest of the chord text `1[1] R[1] 5[1] R[1/2]`, through `crd text conv degree | crd write`: the events the equivalent instances document means", Executions: int64(len(tcases)), Exhaustive: true})
 	runYAMLForms(e, "C07")
 	runLong(e, 16, func(c *playCase) { c07Eval(e, m, c, true) })
 	c07ArgsGraph(e)
